@@ -45,15 +45,28 @@ def _classes():
         pending = False
         registry = None  # every object whose constructor was entered, in creation order
 
+        opno = 0         # number of the running op: decides (reproducibly) whether a passing hook reads
+
+        @classmethod
+        def read(cls):
+            """what a user hook typically does: look at the nodes through the public read-only API.
+            Reading must never change what later reads return (state cached on read must not go stale)."""
+            for n in cls.registry:
+                n.parents, n.children, n.is_root, n.is_leaf
+
         @classmethod
         def pre(cls):
             cur = cls.queue.pop(0) if cls.queue else None
             cls.pending = cur == "post"
+            if cur == "pre" or cls.opno % 3 != 1:
+                cls.read()
             if cur == "pre":
                 raise HookFault("pre")
 
         @classmethod
         def post(cls):
+            if cls.pending or cls.opno % 3 != 2:
+                cls.read()
             if cls.pending:
                 cls.pending = False
                 raise HookFault("post")
@@ -109,7 +122,7 @@ def _fq(f):
     return {"none": None, "pre": "pre", "post": "post"}[f]
 
 
-def _links(nodes):
+def _links(nodes, mismatch=None):
     idx = {id(n): i for i, n in enumerate(nodes)}
     out = []
     for n in nodes:
@@ -117,8 +130,8 @@ def _links(nodes):
         cs = [idx[id(x)] for x in n.children]
         for attr, seen in (("_DAGNode__parents", ps), ("_DAGNode__children", cs)):
             raw = getattr(n, attr, None)
-            if raw is not None and [idx[id(x)] for x in raw] != seen:
-                raise RuntimeError("getter and private list disagree on " + attr)
+            if raw is not None and [idx[id(x)] for x in raw] != seen and mismatch is not None:
+                mismatch.append(attr)
         out.append([ps, cs])
     return out
 
@@ -207,15 +220,17 @@ def run_history(case):
     """Runs in the harness worker (checks on) and, for C20, in the no-assertion child as well."""
     cl = _classes()
     F = cl["Faults"]
-    F.queue, F.pending = [], False
+    F.queue, F.pending, F.opno = [], False, 0
     nodes = F.registry = []
     for i in range(case["n"]):
         cl["FDag"](case["names"][i])
     trace = []
+    mismatch = []      # the public getters are what is observed; a private list that differs is recorded
     ctx = {"last": {}, "used": []}
     ops = case["ops"]
     for k, op in enumerate(ops):
         code = 0
+        F.opno = k
         try:
             apply_op(cl, nodes, op, ctx)
         except HookFault:
@@ -224,7 +239,7 @@ def run_history(case):
             code = exn_code(e)
         F.queue, F.pending = [], False
         _after_call(ctx, nodes, k, keep=(k + 1 < len(ops) and is_reuse(ops[k + 1])))
-        trace.append([_links(nodes), code])
+        trace.append([_links(nodes, mismatch), code])
     idx = {id(n): i for i, n in enumerate(nodes)}
     links = _links(nodes)
     anc = []
@@ -234,7 +249,11 @@ def run_history(case):
         except RecursionError:
             # `ancestors` does not terminate on a cyclic structure: report the true upward closure
             anc.append(_upward(links, i))
-    return {"trace": trace, "anc": anc}
+    if mismatch:
+        # getter view and name-mangled private list differ somewhere: the getter view is still evaluated
+        # against the property; the extra entry makes the correspondence (agree_anc: length) fail as well
+        anc.append([])
+    return {"trace": trace, "anc": anc, "private_mismatch": sorted(set(mismatch))}
 
 
 def run_impl(prop, case):
@@ -917,7 +936,8 @@ def rule(prop):
                     "interpreter started with BIGTREE_CONF_ASSERTIONS=\"\")"}[prop]
     return ("random operation histories (<= 16 ops, 2-10 DAGNode objects: parents/children setters with list/tuple/set/view/"
             "generator/non-iterable arguments, >>, <<, del children, del node[name], constructor with parents=/children=) with "
-            "fault-injecting hooks; every list argument is changed by the caller after the call (append/clear) and ~25 % of the list "
+            "fault-injecting hooks that read parents/children/is_root/is_leaf of every node before raising (and in ~2/3 of the "
+            "passing hook calls); every list argument is changed by the caller after the call (append/clear) and ~25 % of the list "
             "assignments are followed by a second assignment that passes the very same list object to another node; strata: shape (deep/diamond/wide/mixed) x name pool (distinct/repeated); thorough tier adds "
             "every DAG state reachable on <= 4 objects (up to renaming) x every op of a finite universe; non-trivial = >= 2 "
             "accepted ops and >= 2 edges at some point" + extra + "; distinct by canonical JSON hash")
